@@ -22,6 +22,8 @@ type verifRoutingScn struct {
 	L        []string `json:"L"`
 	Unifier  bool     `json:"unifier"`
 	Route    string   `json:"route"`
+	D        []string `json:"D"`
+	Chunked  bool     `json:"chunked"`
 }
 
 func verifHas(xs []string, x string) bool {
@@ -50,7 +52,7 @@ func TestVerif_Routing(t *testing.T) {
 		opts := make([]verifEndpointOpt, len(names))
 		for i, n := range names {
 			opts[i].Models = []string{"m2"}
-			if verifHas(sc.L, n) {
+			if verifHas(sc.L, n) || verifHas(sc.D, n) {
 				opts[i].Models = []string{"m1", "m2"}
 			}
 		}
@@ -74,6 +76,43 @@ func TestVerif_Routing(t *testing.T) {
 			defer mu.Unlock()
 			b.Emit(name, kv...)
 		}
+		// endpoints in D re-list with the model swapped for another one (same size): a listing is refreshed
+		// when an endpoint recovers, so take them through unhealthy -> healthy
+		if len(sc.D) > 0 {
+			for _, be := range stk.backends {
+				if verifHas(sc.D, be.Name) {
+					be.SetModelsOpenAI([]string{"m3", "m2"})
+					be.HealthStatus.Store(503)
+				}
+			}
+			stk.healthRound()
+			for _, be := range stk.backends {
+				if verifHas(sc.D, be.Name) {
+					be.HealthStatus.Store(200)
+				}
+			}
+			var relisted sync.WaitGroup
+			for _, be := range stk.backends {
+				if verifHas(sc.D, be.Name) {
+					be := be
+					relisted.Add(1)
+					var once sync.Once
+					be.OnAux = func(kind string, r *zzverif.Recv) {
+						if kind == "models" {
+							once.Do(relisted.Done)
+						}
+					}
+				}
+			}
+			stk.healthRound()
+			done := make(chan struct{})
+			go func() { relisted.Wait(); close(done) }()
+			select {
+			case <-done:
+			case <-time.After(5 * time.Second):
+			}
+			time.Sleep(150 * time.Millisecond) // registration (and asynchronous unification) after the listing was fetched
+		}
 		// every endpoint was healthy at boot, so its listing is known; now make the ones outside H unhealthy
 		for _, be := range stk.backends {
 			if !verifHas(sc.H, be.Name) {
@@ -95,10 +134,10 @@ func TestVerif_Routing(t *testing.T) {
 		}
 		sort.Strings(hObs)
 		emit("Reset", "scn", sn, "booted", true, "strategy", sc.Strategy, "fallback", sc.Fallback, "refresh", sc.Refresh,
-			"H", hObs, "L", sc.L, "unifier", sc.Unifier, "route", sc.Route)
+			"H", hObs, "L", sc.L, "unifier", sc.Unifier, "route", sc.Route, "D", sc.D, "chunked", sc.Chunked)
 		target, hdrs, body := verifRequestFor(sc.Route, fmt.Sprintf("q%d", sn), "m1")
 		emit("ClientSend", "route", sc.Route)
-		res := zzverif.Do(stk.addr, &zzverif.Req{Method: "POST", Target: target, Headers: hdrs, Body: []byte(body), Timeout: 20 * time.Second})
+		res := zzverif.Do(stk.addr, &zzverif.Req{Method: "POST", Target: target, Headers: hdrs, Body: []byte(body), Chunked: sc.Chunked, ChunkSz: 13, Timeout: 20 * time.Second})
 		stc := res.Status
 		if res.NoResp {
 			stc = 0
